@@ -315,7 +315,7 @@ class _IntOps:
 
 
 def r02_4(ctx) -> None:
-    u = ctx.unit("heapq._largest")
+    u = ctx.inlined(ctx.unit("heapq._largest"))  # fill / replacement steps may be private helpers
     node = u.node
     ev = AbsEval(_IntOps())
     flag = _flag_param(ctx, u)
@@ -340,8 +340,18 @@ def r02_4(ctx) -> None:
         if isinstance(s, ast.Assign) and len(s.targets) == 1 and isinstance(s.targets[0], ast.Name):
             assigns.setdefault(s.targets[0].id, s.value)
     nparam = [p.arg for p in u.params() if p.annotation is not None and norm(p.annotation) == "int"]
+    consts: Dict[str, Any] = {}
+    for cname, sym in u.module.symbols.items():
+        if sym[0] == "assign":
+            try:
+                cv = ast.literal_eval(sym[1])
+            except Exception:  # noqa: BLE001
+                continue
+            if isinstance(cv, int) and not isinstance(cv, bool):
+                consts[cname] = cv
     for rv in (False, True):
-        env: Dict[str, Any] = {flag: rv}
+        env: Dict[str, Any] = dict(consts)
+        env[flag] = rv
         for name, value in assigns.items():
             v = ev.eval(value, dict(env))
             if isinstance(v, (int, bool)):
